@@ -39,6 +39,33 @@ AcctOK(e, m2) ==
 \* structural properties of the specification state after every accepted line
 StateOK(m2) == WF(m2) /\ Partition(m2)
 
+\* Where the properties leave something open, the logged result need not be the machine's choice:
+\*  - retain: which entries the predicate sees is fixed (each once), the order of the calls is not
+\*  - find(q): the entries the result addresses are fixed, the position it reports is not
+RetMatches(e, mine, logged, panicked) ==
+    IF e.a = "Retain" /\ ~panicked
+    THEN Len(mine) = Len(logged) /\ SeqSet(mine) = SeqSet(logged)
+    ELSE IF e.a = "Find" /\ e.kind = "find"
+    THEN /\ Len(mine) = Len(logged)
+         /\ mine # <<>> => mine[1].ok = logged[1].ok /\ mine[1].d.it = logged[1].d.it
+    ELSE mine = logged
+\*  - an item stored in both operands of a set operation may carry either stored representation
+StripBoth(op, ret) ==
+    IF ret = <<>> THEN ret
+    ELSE <<[i \in 1..Len(ret[1]) |->
+              LET it == ret[1][i] IN
+              CASE op = "Union" -> IF it.k = "B"
+                                   THEN [it EXCEPT !.p = Pfx(it.p.n, "*"),
+                                                   !.l = <<[p |-> Pfx(it.p.n, "*"), v |-> it.l[1].v]>>,
+                                                   !.r = <<[p |-> Pfx(it.p.n, "*"), v |-> it.r[1].v]>>]
+                                   ELSE it
+                [] op = "UnionMut" -> IF it.l # <<>> /\ it.r # <<>> THEN [it EXCEPT !.p = Pfx(it.p.n, "*")] ELSE it
+                [] op \in {"Inter", "InterMut"} -> [it EXCEPT !.p = Pfx(it.p.n, "*")]
+                [] OTHER -> it]>>
+PairMatches(e, mine, logged) ==
+    IF e.a \in {"Union", "UnionMut", "Inter", "InterMut"} THEN StripBoth(e.a, mine) = StripBoth(e.a, logged)
+    ELSE mine = logged
+
 \* one single-map event on map `which`
 MapStep(e, which) ==
     LET m0 == IF which = "A" THEN mA ELSE mB
@@ -46,7 +73,7 @@ MapStep(e, which) ==
         ar == AbsApply(Entries(m0), e, r)
     IN \* a "lenient" line only advances the specification (used when the observers are judged after a call
        \* of another property's concern has already been rejected)
-       /\ IF Has(e, "lenient") THEN TRUE ELSE (r.ret = e.ret /\ r.pan = e.pan)
+       /\ IF Has(e, "lenient") THEN TRUE ELSE (RetMatches(e, r.ret, e.ret, r.pan) /\ r.pan = e.pan)
        /\ AcctOK(e, r.m)
        /\ StateOK(r.m)
        \* the abstract map agrees as well (specification self-check at full width);
@@ -58,7 +85,7 @@ MapStep(e, which) ==
                          ELSE mB' = r.m /\ mA' = mA /\ drift' = drift /\ canon' = canon
 
 PairStep(e) ==
-    /\ PairObserve(mA, mB, e) = e.ret
+    /\ PairMatches(e, PairObserve(mA, mB, e), e.ret)
     /\ ~e.pan
     /\ PairObserveOK(Entries(mA), Entries(mB), e, e.ret)
     /\ UNCHANGED <<mA, mB, drift, canon>>
